@@ -884,8 +884,10 @@ func (c *Cluster) streamReq(cn *Conn, req, res *memd.Packet) func() {
 	uuid := binary.BigEndian.Uint64(req.Extras[24:])
 	ss := binary.BigEndian.Uint64(req.Extras[32:])
 	se := binary.BigEndian.Uint64(req.Extras[40:])
+	scripted := false
 	if w.scriptSReq != nil {
 		if v, ok := w.scriptSReq(cn, int(req.Vbucket), start); ok {
+			scripted = true
 			res.Status = v.status
 			if v.status == memd.StatusRollback {
 				res.Value = binary.BigEndian.AppendUint64(nil, v.rbSeq)
@@ -895,7 +897,8 @@ func (c *Cluster) streamReq(cn *Conn, req, res *memd.Packet) func() {
 				return nil
 			}
 		}
-	} else {
+	}
+	if !scripted && w.scriptSReq == nil {
 		if start > end || !(ss <= start && start <= se) {
 			res.Status = memd.StatusRangeError
 			w.jl(c.sreqEvent(cn, req, res.Status, 0, nil, ""))
